@@ -57,8 +57,8 @@ type C12Sc struct {
 	WatchAt  uint16 `json:"watch_at,omitempty"`
 	WatchAll bool   `json:"watch_all,omitempty"` // the window is the whole address space
 	// Concurrent: further hostile worlds that run at the same time on their own goroutines
-	Concurrent []C12Sc `json:"concurrent,omitempty"`
-	BP      []uint16    `json:"bp,omitempty"`
+	Concurrent []C12Sc  `json:"concurrent,omitempty"`
+	BP         []uint16 `json:"bp,omitempty"`
 }
 
 type c12 struct{}
@@ -72,7 +72,9 @@ var hostileBytes = []uint8{0xdd, 0xfd, 0xed, 0xcb, 0x76, 0xdd, 0xfd, 0xed, 0xcb,
 
 func (c12) Gen(r *world.Rng, tier string, n int) interface{} {
 	sc := c12GenOne(r, tier, n)
-	if n%16 == 5 {
+	if n%16 == 5 || strings.HasSuffix(tier, "-race") {
+		// (race side-car: every scenario; short-lived processes, so that whatever the library builds lazily
+		// is built while several CPUs run)
 		// independent hostile machines at the same time (nothing of the library may be shared between them)
 		for k := r.Range(1, 3); k > 0; k-- {
 			o := c12GenOne(r, tier, 0)
@@ -111,7 +113,7 @@ func c12GenOne(r *world.Rng, tier string, n int) *C12Sc {
 		sc.Dense = r.Pick(0, 1, 10, 200, 3000)
 	}
 	if sc.MemKind != "map" {
-		sc.Dense = r.Pick(0, 10, 40, 80, 100) // 100: nothing but prefix bytes
+		sc.Dense = r.Pick(0, 10, 40, 80, 100, 100, 101, 102, 103, 104) // 100: nothing but prefix bytes; 101..104: one and the same prefix everywhere (DD, FD, DD/FD mixed, ED)
 	}
 	switch r.Intn(3) {
 	case 0:
@@ -290,6 +292,20 @@ func c12Build(sc *C12Sc, env *Env) *c12World {
 	rr := world.NewRng(sc.MemSeed)
 	fill := func(b []uint8) {
 		for i := range b {
+			switch sc.Dense {
+			case 101:
+				b[i] = 0xdd
+				continue
+			case 102:
+				b[i] = 0xfd
+				continue
+			case 103:
+				b[i] = []uint8{0xdd, 0xfd}[rr.Intn(2)]
+				continue
+			case 104:
+				b[i] = 0xed
+				continue
+			}
 			if sc.Dense >= 100 {
 				b[i] = []uint8{0xdd, 0xfd, 0xed, 0xcb}[rr.Intn(4)]
 				continue
@@ -354,7 +370,7 @@ func c12Build(sc *C12Sc, env *Env) *c12World {
 				case "copystep":
 					if !sc.UseRun && !w.inCallback {
 						w.inCallback, w.reentered = true, true // the copy logs into the same process-global logger
-						cp := *cpu // struct copy taken while a Step (possibly an acceptance) is in progress
+						cp := *cpu                             // struct copy taken while a Step (possibly an acceptance) is in progress
 						cp.Memory = make(z80.DumbMemory, 256)
 						cp.IO = nil
 						cp.Step()
@@ -383,6 +399,7 @@ func c12Build(sc *C12Sc, env *Env) *c12World {
 		onAccess = func() {
 			if l := w.log; len(l) > 0 && l[len(l)-1].Kind == world.MW && (sc.WatchAll || l[len(l)-1].Addr-sc.WatchAt < 0x100) {
 				cpu.Interrupt = z80.NMIInterrupt()
+				env.Fire("write-watch-device-posts-NMI")
 			}
 			plain()
 		}
@@ -433,6 +450,9 @@ func (c12) Exec(sci interface{}, env *Env) (res *Violation) {
 		v   *Violation
 	}
 	done := make(chan c12Res, 1+len(sc.Concurrent))
+	// the world's goroutine may never come back (that is the `hang` verdict): it collects its statistics
+	// in an environment of its own, added to the worker's only once it has finished
+	pe := env.Private()
 	for i := range sc.Concurrent {
 		i := i
 		o := sc.Concurrent[i] // a copy: executing never edits the scenario
@@ -459,9 +479,9 @@ func (c12) Exec(sci interface{}, env *Env) (res *Violation) {
 			c := *sc
 			c.Direct = true // the log capture is shared: no per-Step history verdicts while other worlds run
 			m = &c
-			env.Fire("hostile-worlds-running-concurrently")
+			pe.Fire("hostile-worlds-running-concurrently")
 		}
-		done <- c12Res{0, c12Exec(m, env)}
+		done <- c12Res{0, c12Exec(m, pe)}
 	}()
 	// every world must have finished before the scenario is over: nothing may still be stepping or
 	// logging when the next scenario starts (and of several violations the one of
@@ -475,6 +495,9 @@ func (c12) Exec(sci interface{}, env *Env) (res *Violation) {
 			if r.v != nil && (first == nil || r.idx < firstIdx) {
 				first, firstIdx = r.v, r.idx
 			}
+			if r.idx == 0 {
+				env.Merge(pe)
+			}
 		case <-timeout:
 			return viol("hang", "Step/Run did not come back within %v of real time (memory %s/%d dense %d, io %s, IM=%d, use_run=%t, regs{%s}): Step must return normally, Run must return once its program halts", c12Watchdog, sc.MemKind, sc.MemLen, sc.Dense, sc.IOKind, sc.IM, sc.UseRun, world.FmtStates(sc.Regs.States()))
 		}
@@ -483,7 +506,11 @@ func (c12) Exec(sci interface{}, env *Env) (res *Violation) {
 }
 
 func c12Exec(sc *C12Sc, env *Env) (res *Violation) {
-	w := c12Build(sc, env)
+	fe := env
+	if sc.UseRun {
+		fe = NewEnv() // the Run-driven world's own event counts are schedule dependent after cancel(): the twin's are kept
+	}
+	w := c12Build(sc, fe)
 	cpu := w.cpu
 	where := "set-up"
 	defer func() {
@@ -506,7 +533,7 @@ func c12Exec(sc *C12Sc, env *Env) (res *Violation) {
 	if sc.UseRun {
 		// Step-driven twin in an identical environment: does the program reach an
 		// executed HALT (bus history) or a breakpoint within the budget, and when?
-		tw := c12Build(sc, NewEnv())
+		tw := c12Build(sc, env)
 		stopTick, stopped := uint64(0), false
 		where = "twin Step"
 		for i := 0; i < sc.Steps; i++ {
@@ -534,11 +561,15 @@ func c12Exec(sc *C12Sc, env *Env) (res *Violation) {
 		where = "Run"
 		err := cpu.Run(ctx)
 		w.hardStop = 0
+		// (counted by what the Step-driven twin predicts: after the harness's cancel() the number of Steps
+		// Run still performs is the Go scheduler's, so what Run itself returns then is not replayable)
 		switch {
-		case err == nil:
+		case stopped && err == nil:
 			env.Fire("run-returned-halted")
-		case err == z80.ErrBreakPoint:
+		case stopped && err == z80.ErrBreakPoint:
 			env.Fire("run-returned-breakpoint")
+		case stopped:
+			env.Fire("run-returned-other")
 		default:
 			env.Fire("run-ended-by-cancellation")
 		}
